@@ -6,6 +6,9 @@ NOTE = ("Trusted base: TLC 1.8; the TLA+ modules under /verif/spec (written from
         "specs/fileformat.yaml and the property text); the harness projection (getattr of public attributes, never "
         "a library serializer) and TLV splitter/joiner. Drivers only choose inputs. Bounded model: see evidence "
         "stages for the constants.")
+FMT = ("TLA+ format spec (RVFormat: Write/Read/Norm as executable definition of the documented format) self-checked by TLC "
+       "(MC_RVFormat: Read(Write(s))=Norm(s), idempotence, structural rules, unknown-chunk invariance) and evaluated by TLC on real "
+       "objects/files (reference evaluation through Trace_RVFormat)")
 CHECKS = {
  "C07": dict(technique="TLA+ model (RVLinks) checked exhaustively by TLC; graph replay of every explored transition into real Project.connect/>>/<</~; batch trace validation of random histories",
              text="TLC explores every connect/disconnect request (pairs exhaustively for 3 modules/tables<=2; list operands, operators, foreign modules) checking Consistent and EdgesAsRequested; each explored transition is executed on a real Project in the pre state and compared literally with the spec's allowed posts; random long histories on mixed-type projects are validated event-by-event by the trace spec with Consistent evaluated on every real state.",
@@ -40,6 +43,30 @@ CHECKS = {
  "C20": dict(technique="TLA+ MultiCtl spec (RVMultiCtl: macro outcome, delivery envelope) with the intended conversion model-checked over the complete input axis; real macro calls and complete 0..32768 sweeps per parameter tuple judged by the trace spec",
              text="MC_RVMultiCtl checks InRange and the Monotone action property of the intended conversion for all 32769 inputs on a grid of gains, windows and spans. MultiCtl.macro is called for every (type, controller) target, for multi-target and refused requests; for sampled parameter tuples (incl. corner gains/quantizations/windows and non-default monotone curves) the real MultiCtl.value is set to every input and the value arriving at the target is recorded; TLC checks outcome, range, monotonicity, and that unmapped links leave their target untouched.",
              ref="5/C20"),
+ "C01": dict(technique="%s; generated projects" % FMT,
+             text="RVFormat is model-checked for self-consistency on a bounded model and then used as the oracle: every generated real project (all module types, payloads, nested MetaModules, samplers, links, patterns, Unicode names) is saved and loaded by the library and TLC checks loaded = Norm(original) field by field and loaded = Read(bytes) with the spec's own decoder, so a symmetric writer/reader error cannot hide.",
+             ref="5/C01, A.6, A.7"),
+ "C02": dict(technique="%s; every module type in both contexts and clone" % FMT,
+             text="For each of the 42 types, modules at controller minima, maxima and random values under every unit, with random options and payloads, go through Synth.write_to + load, Module.clone() and a project round trip; TLC checks loaded = Norm(original), loaded = Read(bytes), bytes = Write(original); an empty Synth must raise EmptySynthError without writing.",
+             ref="5/C02"),
+ "C03": dict(technique="%s; Write(p) compared chunk by chunk with every written file, structural rules evaluated separately" % FMT,
+             text="RVFormat!Write is an encoder written from the format document and the YAML, independent of the library's writer and reader; TLC compares it chunk by chunk (descending into embedded containers) with every file the run produces and evaluates each structural rule of the property on the real chunk stream.",
+             ref="5/C03, A.6"),
+ "C04": dict(technique="%s; Read(chunks) compared with what the library loaded from fixtures, edited fixtures and spec-encoded files" % FMT,
+             text="RVFormat!Read (mode machine) decodes all 53 fixtures, their structure-preserving edits (unknown chunk at chunk positions incl. nested containers with Read(edited)=Read(original) checked too, dropped optional chunks, truncated CVAL lists, reordered header chunks, files without slot chunks) and files encoded by TLC from abstract descriptions; the projection of what the library loaded must equal Read(chunks).",
+             ref="5/C04, A.7"),
+ "C05": dict(technique="%s; load/save cycles of fixtures, generated and byte-mutated files judged by the trace spec" % FMT,
+             text="For every loadable source (fixtures, generated files, files with arbitrary CVAL/option/note bytes) TLC checks that n further load/save cycles reproduce the first re-saved bytes exactly, that the object reloaded equals the object loaded, and that saving left the object's projection unchanged; the bounded model checks Write(Read(Write(s))) = Write(s).",
+             ref="5/C05"),
+ "C06": dict(technique="%s; per-leaf edits of loaded fixtures and generated files judged as Norm(SetPath(before, leaf, value))" % FMT,
+             text="The attribute catalogue of each loaded file is enumerated; for sampled leaves of every kind the attribute is set through the public API, the object saved and reloaded, and TLC checks the reloaded projection equals the base projection with exactly that leaf replaced (and, for type-specific leaves, that the saved bytes equal Write(current state)).",
+             ref="5/C06"),
+ "C15": dict(technique="%s; MetaModule-heavy generator (nesting, counts, mappings, labels, values, lowered counts, reloaded-in-project)" % FMT,
+             text="RVFormat's MetaModule section (recursive embedded project, 96 mappings, labels and CVALs only for the first n user controllers, target-dependent stored form) is the oracle for generated MetaModules at depth up to 3 in stand-alone, in-project, clone and reloaded-then-resaved contexts.",
+             ref="5/C15"),
+ "C16": dict(technique="%s; Sampler-heavy generator and TLV-derived legacy variants" % FMT,
+             text="RVFormat's Sampler section (header struct at documented offsets, 44-byte sample records, waveform chunks, seven envelope chunks, effect synth, legacy conversion) is the oracle for generated samplers (all slots incl. 127, all format x channel combinations, envelopes up to 40 points, full note maps, field limits) and for legacy variants derived through the TLV layer.",
+             ref="5/C16"),
 }
 PENDING = {}
 props = [json.loads(l) for l in open(os.path.join(HERE, "properties.jsonl"))]
